@@ -1094,6 +1094,7 @@ void SPxSolverBase<R>::setType(Type tp)
       , entertolscale(1.0)
       , leavetolscale(1.0)
       , theShift(0)
+      , lastShift(0)
       , m_maxCycle(100)
       , m_numCycle(0)
       , initialized(false)
@@ -1101,6 +1102,12 @@ void SPxSolverBase<R>::setType(Type tp)
       , solveVector3(nullptr)
       , coSolveVector2(nullptr)
       , coSolveVector3(nullptr)
+      , instableLeaveNum(0)
+      , instableLeave(false)
+      , instableLeaveVal(0)
+      , instableEnter(false)
+      , instableEnterVal(0)
+      , recomputedVectors(false)
       , freePricer(false)
       , freeRatioTester(false)
       , freeStarter(false)
@@ -1115,6 +1122,18 @@ void SPxSolverBase<R>::setType(Type tp)
       , primVec(0)
       , dualVec(0)
       , addVec(0)
+      , leaveCount(0)
+      , enterCount(0)
+      , primalCount(0)
+      , polishCount(0)
+      , boundflips(0)
+      , totalboundflips(0)
+      , enterCycles(0)
+      , leaveCycles(0)
+      , enterDegenCand(0)
+      , leaveDegenCand(0)
+      , primalDegenSum(0)
+      , dualDegenSum(0)
       , thepricer(nullptr)
       , theratiotester(nullptr)
       , thestarter(nullptr)
